@@ -44,16 +44,20 @@ func FuzzC18(f *testing.F) {
 		}
 		// the parser allocates what a box header declares (DESIGN O6): keep declared sizes below 16 MiB unless they are
 		// beyond the 32-bit range (rejected without allocation)
-		pos := uint64(0)
+		pos, rel := uint64(0), uint64(0) // rel: offset from the end of the last complete mdat, which is what the parser adds sizes to
 		for pos+8 <= uint64(len(s)) {
 			sz := uint64(binary.BigEndian.Uint32(s[pos:]))
-			if sz < 8 || pos+sz > 0xffffffff {
+			if sz < 8 || rel+sz > 0xffffffff {
 				break
 			}
 			if sz >= 1<<24 {
 				return
 			}
 			pos += sz
+			rel += sz
+			if string(s[pos-sz+4:pos-sz+8]) == "mdat" && pos <= uint64(len(s)) {
+				rel = 0
+			}
 		}
 		c := Case{Truncate: -1, ReadErrAt: -1, CbErrAt: -1, InitBuf: int(flags>>4) * 64, DataEOF: flags&1 != 0}
 		for _, r := range reads {
